@@ -224,8 +224,7 @@ def scan(p: Project, skip_modules=("autoarray.fixtures",)) -> List[dict]:
     for f in p.all_functions():
         if f.module.name in skip_modules or ".mock" in f.module.name or f.module.name.endswith(".mock"):
             continue
-        if f.parent is not None and f.name != "wrapper":
-            continue
+        # (nested functions are scanned too: a local helper that rebuilds a structure from the enclosing function's parent drops the origin just the same)
         for c in f.calls():
             tg = p.resolve_call(c, f)
             if not tg or tg[0].key not in table:
